@@ -1,3 +1,134 @@
-(* C18 — key search positions the cursor so range scans return exactly the range. (in progress) *)
-From Coq Require Import List ZArith NArith.
-From SopVerif Require Import OMap Btree Corr.C17 Corr.C18.
+(* C18 — key search positions the cursor so range scans return exactly the range.
+
+   FULL theorems are about the specification OMap (every item list reachable by any accepted
+   run, every probe key); the node-level model is tied to it by the refinement statement of
+   C17 (sim_run; Props/C17.v: transfer FULL, induction PARTIAL + BOUNDED) and to the code by the
+   correspondence check.  REFUTED statements are false of the faithful model and of the code. *)
+From Coq Require Import List ZArith NArith Bool.
+From SopVerif Require Import OMap OMapProofs OMapProofs2 Btree BtreeSim BtreeProofs BtreeProofs2
+  BtreeBounded2 Corr.C17 Corr.C18.
+Import ListNotations.
+Local Open Scope Z_scope.
+
+(* Find(k, true): hit -> the least index holding k; miss -> adjacent to the insertion point *)
+Theorem C18_find_first : forall u s k h s' r, Inv u s -> items s <> [] ->
+  ostep u s (OFind k true) h = Some (s', r) ->
+  let l := items s in
+  items s' = l /\
+  (has_key l k = true ->
+     rok r = true /\ cur s' = CAt (lb l k) /\ key_at l (lb l k) = k /\ (lb l k < length l)%nat /\
+     forall j, (j < lb l k)%nat -> key_at l j < k) /\
+  (has_key l k = false ->
+     rok r = false /\ exists i, cur s' = CAt i /\ (i < length l)%nat /\ (i = lb l k \/ S i = lb l k) /\
+     (forall j, (j < lb l k)%nat -> key_at l j < k) /\
+     (forall j, (lb l k <= j < length l)%nat -> k < key_at l j)).
+Proof. exact find_first_spec. Qed.
+Print Assumptions C18_find_first.
+
+(* FindInDescendingOrder(k): hit -> the greatest index holding k; miss -> adjacent *)
+Theorem C18_find_descending : forall u s k h s' r, Inv u s -> items s <> [] ->
+  ostep u s (OFindDesc k) h = Some (s', r) ->
+  let l := items s in
+  items s' = l /\
+  (has_key l k = true ->
+     rok r = true /\ cur s' = CAt (pred (ub l k)) /\ key_at l (pred (ub l k)) = k /\ (0 < ub l k <= length l)%nat /\
+     forall j, (ub l k <= j < length l)%nat -> k < key_at l j) /\
+  (has_key l k = false ->
+     rok r = false /\ exists i, cur s' = CAt i /\ (i < length l)%nat /\ (i = ub l k \/ S i = ub l k) /\
+     (forall j, (j < ub l k)%nat -> key_at l j < k) /\
+     (forall j, (ub l k <= j < length l)%nat -> k < key_at l j)).
+Proof. exact find_desc_spec. Qed.
+Print Assumptions C18_find_descending.
+
+(* Find(k, false): an item with that key.  PARTIAL: the cursor must not be on an emptied slot *)
+Theorem C18_find_any_partial : forall u s k h s' r, Inv u s -> items s <> [] -> cur s <> CGhost ->
+  ostep u s (OFind k false) h = Some (s', r) ->
+  items s' = items s /\ rok r = has_key (items s) k /\
+  (rok r = true -> exists i x, cur s' = CAt i /\ nth_error (items s) i = Some x /\ ikey x = k).
+Proof. exact find_any_spec. Qed.
+Print Assumptions C18_find_any_partial.
+
+(* REFUTED without that hypothesis: Find(0,false) = true although key 0 is not stored
+   (finding find-ghost-hit; the specification carries the same behaviour as CGhost) *)
+Theorem C18_find_any_refuted : exists cfg ops,
+  let '(b, rs) := brun cfg empty_bstate ops in
+  rok (last rs (mkRes false ENone [])) = true /\
+  match last ops OFirst with OFind k false => ~ In k (map ikey (b_inorder b)) | _ => False end.
+Proof.
+  exists (mkCfg 2 false false), ghost_witness.
+  pose proof find_ghost_witness as H.
+  destruct (brun (mkCfg 2 false false) empty_bstate ghost_witness) as [b rs] eqn:E.
+  destruct H as [H1 [H2 _]]. split.
+  - destruct rs as [|r1 [|r2 [|r3 [|r4 [|r5 [|]]]]]]; try discriminate. cbn in *. congruence.
+  - cbn. rewrite H2. cbn. intuition discriminate.
+Qed.
+Print Assumptions C18_find_any_refuted.
+
+(* FindWithID(k, id): true -> on the item with that id; the stored pair (k, id) is always found;
+   a missing key fails *)
+Theorem C18_find_with_id : forall u s k id h s' r, Inv u s ->
+  ostep u s (OFindWithID k id) h = Some (s', r) ->
+  let l := items s in
+  items s' = l /\
+  (rok r = true -> exists j x, cur s' = CAt j /\ nth_error l j = Some x /\ iid x = id /\ k <= ikey x) /\
+  (forall j x, nth_error l j = Some x -> iid x = id -> ikey x = k -> rok r = true /\ cur s' = CAt j) /\
+  (has_key l k = false -> rok r = false).
+Proof. exact find_with_id_spec. Qed.
+Print Assumptions C18_find_with_id.
+
+(* REFUTED: "or fails" — an id stored under a greater key is accepted (finding findwithid-foreign-key) *)
+Theorem C18_find_with_id_refuted : exists cfg ops,
+  let '(b, rs) := brun cfg empty_bstate ops in
+  rok (last rs (mkRes false ENone [])) = true /\
+  match last ops OFirst with OFindWithID k _ => ikey (bcurrent_key b) <> k | _ => False end.
+Proof.
+  exists (mkCfg 4 false false), foreign_witness.
+  pose proof find_id_foreign_witness as H.
+  destruct (brun (mkCfg 4 false false) empty_bstate foreign_witness) as [b rs] eqn:E.
+  destruct H as [H1 H2]. split.
+  - destruct rs as [|r1 [|r2 [|r3 [|]]]]; try discriminate. cbn in *. congruence.
+  - cbn. rewrite H2. cbn. discriminate.
+Qed.
+Print Assumptions C18_find_with_id_refuted.
+
+(* Range / RangeDesc of inmemory/iterate.go: exactly the stored items inside the bounds, in
+   ascending order / its reverse — for every stored list and every pair of bounds *)
+Theorem C18_range : forall u s from to h s' r, Inv u s ->
+  ostep u s (ORange from to) h = Some (s', r) ->
+  rout r = map kv (filter (in_range from to) (items s)) /\ items s' = items s.
+Proof. exact C18_range_spec. Qed.
+Print Assumptions C18_range.
+
+Theorem C18_range_desc : forall u s from to h s' r, Inv u s ->
+  ostep u s (ORangeDesc from to) h = Some (s', r) ->
+  rout r = map kv (rev (filter (in_range to from) (items s))) /\ items s' = items s.
+Proof. exact C18_range_desc_spec. Qed.
+Print Assumptions C18_range_desc.
+
+(* transfer: on every simulated run the node-level model returns exactly these results *)
+Theorem C18_btree_results : forall cfg ops b s, sim_from cfg b s ops = true ->
+  exists hs s' rs,
+    length hs = length ops /\
+    orun (cunique cfg) s (combine ops hs) = Some (s', rs) /\
+    let '(b', rbs) := brun cfg b ops in
+    map rok rs = map rok rbs /\ map rerr rs = map rerr rbs /\ map rout rs = map rout rbs /\
+    (ops <> [] -> items s' = b_inorder b' /\ ocount s' = bcount b' /\ current_key s' = bcurrent_key b').
+Proof. exact sim_from_orun. Qed.
+Print Assumptions C18_btree_results.
+
+(* BOUNDED (not the claim): searches and navigation inside every call sequence of length <= 5 *)
+Theorem C18_bounded_L2_mixed_5 : forall ops, (length ops <= 5)%nat -> Forall (fun o => In o alpha_mixed) ops ->
+  sim_run (mkCfg 2 false false) ops = true.
+Proof. exact bounded_L2_dup_mixed. Qed.
+Print Assumptions C18_bounded_L2_mixed_5.
+
+(* non-vacuity: probes before, between, after and on duplicated keys, both range directions *)
+Example C18_nonvacuous :
+  let ops := [OAdd 4 1; OAdd 2 2; OAdd 4 3; OAdd 6 4; OAdd 4 5; OFind 4 true; OFindDesc 4; OFind 3 true;
+              OFind 9 true; OFind 0 true; ORange 3 5; ORangeDesc 6 3; ORange 7 9] in
+  sim_run (mkCfg 2 false false) ops = true /\
+  map rout (skipn 10 (snd (brun (mkCfg 2 false false) empty_bstate ops))) =
+    [[mkItem 0 4 5; mkItem 0 4 3; mkItem 0 4 1];
+     [mkItem 0 6 4; mkItem 0 4 1; mkItem 0 4 3; mkItem 0 4 5];
+     []].
+Proof. vm_compute. split; reflexivity. Qed.
